@@ -179,8 +179,17 @@ class TheoryOracle(walkers.DagWalker):
             theory.uninterpreted = True
         return theory
 
+    @walkers.handles(op.QUANTIFIERS)
+    def walk_quantifier(self, formula: FNode, args: List[Theory], **kwargs) -> Theory:
+        """Combines the theory of the body with the sorts of the bound variables"""
+        #pylint: disable=unused-argument
+        theory_out = args[0].copy()
+        for v in formula.quantifier_vars():
+            theory_out = theory_out.combine(self._theory_from_type(v.symbol_type()))
+        return theory_out
+
     @walkers.handles(op.RELATIONS)
-    @walkers.handles(op.BOOL_OPERATORS)
+    @walkers.handles(op.BOOL_CONNECTIVES)
     @walkers.handles(op.BV_OPERATORS)
     @walkers.handles(op.STR_OPERATORS -\
                      set([op.STR_LENGTH, op.STR_INDEXOF, op.STR_TO_INT]))
